@@ -1,4 +1,431 @@
-import KatdalModel.Model.ApplyCal
+/-
+  C14 — Calibration solutions become corrections by the documented interpolation rules.
+
+  "Delay solutions become exp(-2*pi*i*delay*frequency) with missing delays treated as zero; bandpass
+   solutions are inverted after magnitude- and phase-linear interpolation over frequency across invalid
+   channels, without extrapolating beyond the outermost valid channels; gain solutions are inverted
+   after magnitude- and phase-linear interpolation over time that reproduces every valid solution at
+   its own dump to within rounding, holds the nearest valid solution before the first and after the
+   last, ignores invalid solutions, is scaled by the inverse square root of the calibrator flux
+   density when one is known and, for self-calibration products, only uses solutions derived on the
+   same target.  Multi-part products are reassembled in channel order with absent parts marked
+   invalid, and the product names a user may request ('all', 'default', a stream, a product type or
+   stream.type) expand to the documented product lists, skipping or rejecting missing ones as
+   documented."
+
+  Model: KatdalModel/Model/ApplyCal.lean sections 3-5 (mirror of `_normalise_cal_products`,
+  `indirect_cal_product`, `complex_interp`, `calc_delay_correction`, `calc_bandpass_correction`,
+  `calibrate_flux`, `calc_gain_correction`).  Reals: any linearly ordered field `F` (exact
+  arithmetic); complex scalars: any `CAlg S F` — |z|, arg z, polar form, exp(iθ), √, π, `mod` are
+  opaque operations, so the theorems state the *structure* (which solution, which interpolation
+  nodes, which argument) and hold whatever those functions are.
+-/
+import KatdalModel.Lemmas.ApplyCalGain
+import KatdalModel.Lemmas.ApplyCalStitch
+import KatdalModel.Lemmas.ApplyCalNames
+import Mathlib.Tactic.Ring
+open Np ApplyCal
+
+set_option linter.unusedSectionVars false
+
 namespace C14
-theorem placeholder : True := trivial
+
+/-! ### product names -/
+
+/-- **c14_names** (general form) — `_normalise_cal_products` expands every requested name on its own
+    (`expandName`: a name with a dot stands for itself, a stream for all its product types, a product
+    type for that type on every stream, anything else is a `ValueError`) and concatenates; the
+    skip-missing flag is "the request was 'all' / 'default' or some requested name has no dot". -/
+theorem c14_names (r : Req) (streams : List String) :
+    normaliseCalProducts r streams
+      = ((selectionToList r streams Tables.defaultCalProducts).mapM (expandName streams)).map fun ls =>
+          (ls.flatten,
+            (match r with | .str s => s = "all" || s = "default" | .seq _ => false)
+              || (selectionToList r streams Tables.defaultCalProducts).any (fun p => !hasDot p)) := by
+  unfold normaliseCalProducts
+  simp only [normaliseLoop_eq, List.nil_append]
+  cases (selectionToList r streams Tables.defaultCalProducts).mapM (expandName streams) <;> rfl
+
+/-- `'all'` = every product type of every stream, stream by stream; missing ones are skipped -/
+theorem c14_names_all (streams : List String) (hnd : ∀ s ∈ streams, hasDot s = false) :
+    normaliseCalProducts (.str "all") streams
+      = .ok (streams.flatMap (fun s => Tables.calProductTypes.map (joinDot s)), true) := by
+  rw [c14_names]
+  have hsel : selectionToList (.str "all") streams Tables.defaultCalProducts = streams := by
+    simp [selectionToList]
+  rw [hsel, mapM_expand_streams streams streams (fun p hp => ⟨hnd p hp, hp⟩)]
+  simp [Except.map, List.flatMap_def]
+
+/-- `'default'` = `DEFAULT_CAL_PRODUCTS` verbatim (whatever streams exist); missing ones are skipped -/
+theorem c14_names_default (streams : List String) :
+    normaliseCalProducts (.str "default") streams = .ok (Tables.defaultCalProducts, true) := by
+  rw [c14_names]
+  have hsel : selectionToList (.str "default") streams Tables.defaultCalProducts = Tables.defaultCalProducts := by
+    simp [selectionToList]
+  have hd : ∀ p ∈ Tables.defaultCalProducts, hasDot p = true := by decide
+  rw [hsel, mapM_expand_dotted streams _ hd]
+  simp [Except.map, flatten_singletons]
+
+/-- the empty string = no calibration, nothing to skip -/
+theorem c14_names_empty (streams : List String) :
+    normaliseCalProducts (.str "") streams = .ok ([], false) := by
+  rw [c14_names]
+  simp [selectionToList, Except.map, pure, Except.pure]
+
+/-- a stream name = all product types of that stream (skip missing) -/
+theorem c14_names_stream (streams : List String) (s : String) (hs : s ∈ streams) (hd : hasDot s = false) :
+    normaliseCalProducts (.seq [s]) streams = .ok (Tables.calProductTypes.map (joinDot s), true) := by
+  rw [c14_names]
+  simp [selectionToList, expandName, hd, hs, Except.map, bind, Except.bind, pure, Except.pure]
+
+/-- a product type = that type on every stream (skip missing) -/
+theorem c14_names_type (streams : List String) (t : String) (ht : t ∈ Tables.calProductTypes)
+    (hns : t ∉ streams) :
+    normaliseCalProducts (.seq [t]) streams = .ok (streams.map (joinDot · t), true) := by
+  have hd : hasDot t = false := by
+    have : ∀ t ∈ Tables.calProductTypes, hasDot t = false := by decide
+    exact this t ht
+  rw [c14_names]
+  simp [selectionToList, expandName, hd, hns, ht, Except.map, bind, Except.bind, pure, Except.pure]
+
+/-- `stream.type` = itself; a missing one is rejected (no skipping) -/
+theorem c14_names_qualified (streams : List String) (p : String) (hd : hasDot p = true) :
+    normaliseCalProducts (.seq [p]) streams = .ok ([p], false) := by
+  rw [c14_names]
+  simp [selectionToList, expandName, hd, Except.map, bind, Except.bind, pure, Except.pure]
+
+/-- anything else anywhere in the request ⇒ `ValueError` -/
+theorem c14_names_unknown (streams : List String) (l : List String) (p : String) (hp : p ∈ l)
+    (hd : hasDot p = false) (hs : p ∉ streams) (ht : p ∉ Tables.calProductTypes) :
+    normaliseCalProducts (.seq l) streams = .error .value := by
+  rw [c14_names]
+  have : expandName streams p = .error .value := by simp [expandName, hd, hs, ht]
+  have hsel : selectionToList (.seq l) streams Tables.defaultCalProducts = l := rfl
+  rw [hsel, mapM_expand_error streams l ⟨p, hp, _, this⟩]
+  rfl
+
+example : normaliseCalProducts (.str " l2.GPHASE ,G") ["l1", "l2"] = .ok (["l2.GPHASE", "l1.G", "l2.G"], true) := by
+  decide
+example : normaliseCalProducts (.str "all") ["l1"]
+    = .ok (["l1.K", "l1.B", "l1.G", "l1.GPHASE", "l1.GAMP_PHASE"], true) := by decide
+example : normaliseCalProducts (.seq ["l1.G", "X"]) ["l1"] = .error .value := by decide
+
+/-! ### multi-part products -/
+
+/-- **c14_stitch** — for parts whose timestamps are strictly increasing, the stitching loop terminates
+    within `stitchFuel` iterations and either no part has any value (`KeyError`) or the output has
+    strictly increasing timestamps, exactly the union of the parts' timestamps, and each value is the
+    concatenation, in part order, of the parts' values at that timestamp with `INVALID_GAIN` blocks
+    for the parts that have none there. -/
+theorem c14_stitch {S F : Type} (A : CAlg S F) (parts : List (Part (List S))) (hs : ∀ p ∈ parts, PartSorted p) :
+    ((∀ p ∈ parts, p = []) ∧ stitch A parts = .error .key) ∨
+    ∃ out, stitch A parts = .ok out ∧ out ≠ [] ∧
+      (out.map (·.1)).Pairwise (· < ·) ∧
+      (∀ t, t ∈ out.map (·.1) ↔ HasTime parts t) ∧
+      (∀ e ∈ out, e.2 = fillPieces A (parts.map (lookupTime e.1))) := by
+  obtain ⟨evs, hloop, hsorted, hmem, hval⟩ := stitchLoop_spec (stitchFuel parts) parts hs (Nat.le_refl _)
+  cases evs with
+  | nil =>
+    left
+    constructor
+    · intro p hp
+      cases p with
+      | nil => rfl
+      | cons e tl =>
+        have : HasTime parts e.1 := ⟨e :: tl, hp, e.2, List.mem_cons_self ..⟩
+        have := (hmem e.1).mpr this
+        simp at this
+    · simp [stitch, hloop]
+  | cons e0 rest =>
+    right
+    refine ⟨(e0 :: rest).map fun e => (e.1, fillPieces A e.2), by simp [stitch, hloop], by simp, ?_, ?_, ?_⟩
+    · simpa [List.map_map, Function.comp_def] using hsorted
+    · intro t
+      rw [← hmem t]
+      simp [List.map_map, Function.comp_def]
+    · intro e he
+      simp only [List.mem_map] at he
+      obtain ⟨e', he', rfl⟩ := he
+      simp only
+      rw [hval e' he']
+
+/-- **termination** of the `while True` loop: the fuel `stitchFuel` (number of stored values) suffices -/
+theorem c14_stitch_terminates {V : Type} (parts : List (Part V)) (hs : ∀ p ∈ parts, PartSorted p) :
+    (stitchLoop (stitchFuel parts) parts).isSome = true := by
+  obtain ⟨evs, hloop, _⟩ := stitchLoop_spec (stitchFuel parts) parts hs (Nat.le_refl _)
+  simp [hloop]
+
+/-- absent parts become blocks of `INVALID_GAIN` of the size of the (equally sized) present parts -/
+theorem c14_stitch_fill {S F : Type} (A : CAlg S F) (pieces : List (Option (List S))) (n : Nat)
+    (hn : ∀ p ∈ pieces, ∀ v, p = some v → v.length = n) (hsome : ∃ p ∈ pieces, p.isSome = true) :
+    fillPieces A pieces = (pieces.map fun p => p.getD (List.replicate n A.nan)).flatten := by
+  show (pieces.map fun p => p.getD (List.replicate
+    (((pieces.filterMap id).getLast?.map List.length).getD 0) A.nan)).flatten = _
+  have hne : pieces.filterMap id ≠ [] := by
+    obtain ⟨p, hp, hps⟩ := hsome
+    cases p with
+    | none => simp at hps
+    | some v =>
+      intro h
+      have : v ∈ pieces.filterMap id := List.mem_filterMap.mpr ⟨some v, hp, rfl⟩
+      rw [h] at this
+      simp at this
+  have hlast : (pieces.filterMap id).getLast? = some ((pieces.filterMap id).getLast hne) :=
+    List.getLast?_eq_some_getLast hne
+  have hmem := List.getLast_mem hne
+  obtain ⟨p, hp, hpv⟩ := List.mem_filterMap.mp hmem
+  have hlen : ((pieces.filterMap id).getLast hne).length = n := hn p hp _ (by simpa using hpv)
+  have hn' : ((pieces.filterMap id).getLast?.map List.length).getD 0 = n := by
+    rw [hlast, Option.map_some, Option.getD_some]
+    exact hlen
+  rw [hn']
+
+def exParts : List (Part (List (Scalar Int))) :=
+  [[(1, [.val 1]), (3, [.val 3])], [], [(2, [.val 20]), (3, [.val 30])]]
+
+local instance : Inv Int := ⟨fun x => 1 / x⟩
+
+example : ∀ p ∈ exParts, PartSorted p := by
+  simp only [PartSorted]
+  decide
+example : stitch (F := Int) (Scalar.alg (K := Int) (F := Int)
+    { star := id, normSq := fun x => x * x, abs := fun x => x, angle := fun _ => 0, polar := fun m _ => m,
+      divReal := fun x r => x / r, cis := fun _ => 1 }) exParts
+    = .ok [(1, [.val 1, .nan, .nan]), (2, [.nan, .nan, .val 20]), (3, [.val 3, .nan, .val 30])] := by
+  decide
+
+/-! ### gains -/
+
+section gain
+variable {S F : Type} [Field F] [LinearOrder F] [BEq F]
+
+/-- **c14_gain_pointwise** — the per-target / per-channel loops of `calc_gain_correction` compute, at
+    every dump `d` and channel `c`, the reciprocal of `specGain`: `complex_interp` at `d` through the
+    valid solutions (finite and derived on the target of dump `d`) of channel `c`, or `INVALID_GAIN`
+    when there is none. -/
+theorem c14_gain_pointwise (A : CAlg S F) (R : ROps F) (segs : List (Nat × Option (List S))) (nDumps : Nat)
+    (targets : Option (List Nat)) (e0 : Nat × List S) (rest : List (Nat × List S))
+    (hevs : (segs.filterMap fun sg => sg.2.map fun g => (sg.1, g)) = e0 :: rest)
+    (htg : (targets.getD (List.replicate nDumps 0)).length = nDumps) :
+    gainCorrection A R segs nDumps targets
+      = gtab nDumps e0.2.length fun d c =>
+          A.inv (specGain A R (e0 :: rest) (targets.getD (List.replicate nDumps 0)) d c) :=
+  gainCorrection_eq A R segs nDumps targets e0 rest hevs htg
+
+/-- no solution at all (only the placeholder) ⇒ every dump invalid -/
+theorem c14_gain_no_solutions (A : CAlg S F) (R : ROps F) (segs : List (Nat × Option (List S))) (nDumps : Nat)
+    (targets : Option (List Nat)) (h : ∀ sg ∈ segs, sg.2 = none) :
+    gainCorrection A R segs nDumps targets = List.replicate nDumps [A.inv A.nan] := by
+  have : (segs.filterMap fun sg => sg.2.map fun g => (sg.1, g)) = [] := by
+    rw [List.filterMap_eq_nil_iff]
+    intro sg hsg
+    simp [h sg hsg]
+  simp [gainCorrection, this]
+
+/-- solutions sit at strictly increasing dumps and dump indices become strictly increasing reals -/
+def EventsSorted (evs : List (Nat × List S)) : Prop := evs.Pairwise (fun a b => a.1 < b.1)
+
+theorem validPts_sorted (A : CAlg S F) (R : ROps F) (hmono : ∀ a b : Nat, a < b → R.ofNat a < R.ofNat b)
+    (evs : List (Nat × List S)) (hs : EventsSorted evs) (tg : List Nat) (τ c : Nat) :
+    SortedPts (validPts A R evs tg τ c) := by
+  unfold SortedPts validPts
+  apply List.Pairwise.filterMap _ _ hs
+  intro a a' haa' b hb b' hb'
+  dsimp only at hb hb'
+  split at hb
+  · split at hb'
+    · simp only [Option.some.injEq] at hb hb'
+      subst hb hb'
+      exact hmono _ _ haa'
+    · simp at hb'
+  · simp at hb
+
+/-- **c14_gain_exact_at_solution** — at the dump of a valid solution `g` (finite in channel `c`), the
+    smoothed gain is `polar |g_c| φ` where `φ` is that solution's own unwrapped phase: magnitude and
+    unwrapped phase are reproduced exactly (no contribution from any other solution). -/
+theorem c14_gain_exact_at_solution (A : CAlg S F) (R : ROps F)
+    (hmono : ∀ a b : Nat, a < b → R.ofNat a < R.ofNat b)
+    (evs : List (Nat × List S)) (hs : EventsSorted evs) (tg : List Nat) (c : Nat)
+    (e : Nat × List S) (he : e ∈ evs) (hfin : A.isFinite (e.2.getD c A.nan) = true) :
+    ∃ k, ∃ hk : k < (validPts A R evs tg (tg.getD e.1 0) c).length,
+      (validPts A R evs tg (tg.getD e.1 0) c)[k] = (R.ofNat e.1, e.2.getD c A.nan) ∧
+      specGain A R evs tg e.1 c
+        = A.polar (A.abs (e.2.getD c A.nan))
+            ((phasesOf A R (validPts A R evs tg (tg.getD e.1 0) c))[k]'(by
+              simpa [phasesOf, unwrap_length] using hk)) := by
+  have hmem : (R.ofNat e.1, e.2.getD c A.nan) ∈ validPts A R evs tg (tg.getD e.1 0) c :=
+    (mem_validPts A R evs tg _ c _ _).mpr ⟨e, he, hfin, rfl, rfl, rfl⟩
+  obtain ⟨k, hk, hkv⟩ := List.mem_iff_getElem.mp hmem
+  refine ⟨k, hk, hkv, ?_⟩
+  have hne : (validPts A R evs tg (tg.getD e.1 0) c).isEmpty = false := by
+    cases hv : validPts A R evs tg (tg.getD e.1 0) c with
+    | nil => rw [hv] at hk; simp at hk
+    | cons _ _ => rfl
+  have hnode := complexInterp_node A R _ (validPts_sorted A R hmono evs hs tg (tg.getD e.1 0) c) k hk
+  simp only [specGain, hne, Bool.false_eq_true, if_false]
+  simp only [hkv] at hnode
+  exact hnode
+
+/-- **c14_gain_hold_ends (before)** — at a dump before the first valid solution on its target the
+    smoothed gain is built from the first valid solution alone -/
+theorem c14_gain_hold_before (A : CAlg S F) (R : ROps F) (evs : List (Nat × List S)) (tg : List Nat) (d c : Nat)
+    (p0 : F × S) (t : List (F × S)) (hv : validPts A R evs tg (tg.getD d 0) c = p0 :: t)
+    (hd : R.ofNat d < p0.1) :
+    specGain A R evs tg d c
+      = A.polar (A.abs p0.2) ((phasesOf A R (p0 :: t))[0]'(by simp [phasesOf, unwrap_length])) := by
+  simp only [specGain, hv, List.isEmpty_cons, Bool.false_eq_true, if_false]
+  exact complexInterp_before A R p0 t _ hd
+
+/-- **c14_gain_hold_ends (after)** — at or after the last valid solution on its target the smoothed
+    gain is built from the last valid solution alone -/
+theorem c14_gain_hold_after (A : CAlg S F) (R : ROps F) (evs : List (Nat × List S)) (tg : List Nat) (d c : Nat)
+    (hne : validPts A R evs tg (tg.getD d 0) c ≠ [])
+    (hd : ∀ p ∈ validPts A R evs tg (tg.getD d 0) c, p.1 ≤ R.ofNat d) :
+    ∃ φ, specGain A R evs tg d c
+      = A.polar (A.abs ((validPts A R evs tg (tg.getD d 0) c).getLast hne).2) φ ∧
+      (phasesOf A R (validPts A R evs tg (tg.getD d 0) c)).getLast? = some φ := by
+  have hemp : (validPts A R evs tg (tg.getD d 0) c).isEmpty = false := by
+    cases hv : validPts A R evs tg (tg.getD d 0) c with
+    | nil => exact absurd hv hne
+    | cons _ _ => rfl
+  refine ⟨_, ?_, List.getLast?_eq_some_getLast ?_⟩
+  · simp only [specGain, hemp, Bool.false_eq_true, if_false]
+    exact complexInterp_after A R _ hne _ hd
+
+/-- **c14_gain_ignores_invalid** — deleting the solutions that are invalid (not finite) in channel `c`
+    from the history changes nothing in channel `c`, at any dump -/
+theorem c14_gain_ignores_invalid (A : CAlg S F) (R : ROps F) (evs : List (Nat × List S)) (tg : List Nat)
+    (d c : Nat) :
+    specGain A R (evs.filter fun e => A.isFinite (e.2.getD c A.nan)) tg d c = specGain A R evs tg d c := by
+  simp only [specGain, validPts_drop_invalid]
+
+/-- **c14_selfcal_isolation** — two solution histories that agree on the solutions derived on the
+    target of dump `d` give the same smoothed gain at `d`: solutions derived on other targets can be
+    changed, added or removed without effect -/
+theorem c14_selfcal_isolation (A : CAlg S F) (R : ROps F) (evs evs' : List (Nat × List S)) (tg : List Nat)
+    (d c : Nat)
+    (h : evs.filter (fun e => tg.getD e.1 0 == tg.getD d 0) = evs'.filter (fun e => tg.getD e.1 0 == tg.getD d 0)) :
+    specGain A R evs tg d c = specGain A R evs' tg d c := by
+  simp only [specGain, validPts_congr A R evs evs' tg (tg.getD d 0) c h]
+
+end gain
+
+/-! ### flux scale -/
+
+section flux
+variable {S F : Type} [Zero F] [LT F] [DecidableLT F]
+
+/-- **c14_flux_scale** — each solution is divided by `√flux` of the first name among
+    `[target.name] + target.aliases` (target at the solution's dump) whose flux is known and positive;
+    otherwise (no such name, or the `INVALID_GAIN` placeholder, or an empty table) it is unchanged -/
+theorem c14_flux_scale (A : CAlg S F) (R : ROps F) (segs : List (Nat × Option (List S)))
+    (names : Nat → List String) (table : List (String × Option F)) :
+    calibrateFlux A R segs names table = segs.map fun sg =>
+      match sg.2, ((names sg.1).filterMap fun n =>
+          (fluxOf table n).bind fun v => if 0 < v then some v else none).head? with
+      | some g, some fl => (sg.1, some (g.map fun z => A.divReal z (R.sqrt fl)))
+      | _, _ => sg := by
+  unfold calibrateFlux
+  by_cases hte : table.isEmpty = true
+  · have ht : table = [] := List.isEmpty_iff.mp hte
+    subst ht
+    simp only [List.isEmpty_nil, if_true]
+    conv => lhs; rw [← List.map_id segs]
+    apply List.map_congr_left
+    intro sg _
+    have : ((names sg.1).filterMap fun n =>
+        (fluxOf ([] : List (String × Option F)) n).bind fun v => if 0 < v then some v else none) = [] := by
+      rw [List.filterMap_eq_nil_iff]
+      intro n _
+      simp [fluxOf]
+    rw [this]
+    cases sg.2 <;> rfl
+  · simp only [hte, Bool.false_eq_true, if_false]
+    apply List.map_congr_left
+    intro sg _
+    rw [← firstFlux_eq]
+    cases sg.2 with
+    | none => rfl
+    | some g => cases firstFlux table (names sg.1) <;> rfl
+
+/-- overrides take precedence over the pipeline's measured fluxes; `None` disables flux calibration -/
+theorem c14_flux_table (measured o : List (String × Option F)) (n : String) :
+    mergeFlux measured (none : Option (List (String × Option F))) = [] ∧
+    fluxOf (mergeFlux measured (some o)) n = if o.any (·.1 == n) then fluxOf o n else fluxOf measured n :=
+  ⟨rfl, fluxOf_append o measured n⟩
+
+end flux
+
+/-! ### bandpass -/
+
+section bandpass
+variable {S F : Type} [Field F] [LinearOrder F] [BEq F]
+
+/-- **c14_bandpass_no_extrapolation** — with `pts` the valid (finite) channels of the solution, the
+    correction at a data frequency below the first or above the last valid cal frequency is the
+    reciprocal of `INVALID_GAIN`; inside it is the reciprocal of `complex_interp` through `pts`
+    (magnitude and unwrapped phase each piecewise linear over frequency, invalid channels skipped). -/
+theorem c14_bandpass_no_extrapolation (A : CAlg S F) (R : ROps F) (dataFreqs calFreqs : List F) (bp : List S)
+    (k : Nat) (f : F) (hk : dataFreqs[k]? = some f) :
+    let pts := (calFreqs.zip bp).filter fun p => A.isFinite p.2
+    (outside f (pts.map (·.1)) = true → (bandpassCorrection A R dataFreqs calFreqs bp)[k]? = some (A.inv A.nan)) ∧
+    (pts ≠ [] → (bandpassCorrection A R dataFreqs calFreqs bp)[k]?
+        = some (A.inv (complexInterp A R .invalid pts f))) := by
+  intro pts
+  rw [bandpassCorrection_eq]
+  simp only [List.getElem?_map, hk, Option.map_some]
+  constructor
+  · intro hout
+    by_cases he : pts.isEmpty = true
+    · simp only [pts] at he; simp [he]
+    · simp only [pts] at he hout
+      simp only [he, Bool.false_eq_true, if_false]
+      rw [complexInterp_outside A R _ f hout]
+  · intro hne
+    have he : pts.isEmpty = false := by
+      cases hp : pts with
+      | nil => exact absurd hp hne
+      | cons _ _ => rfl
+    simp only [pts] at he
+    simp only [he, Bool.false_eq_true, if_false]
+    rfl
+
+/-- exact at a valid cal channel that coincides with a data channel -/
+theorem c14_bandpass_exact_at_channel (A : CAlg S F) (R : ROps F) (pts : List (F × S)) (hs : SortedPts pts)
+    (k : Nat) (hk : k < pts.length) :
+    complexInterp A R .invalid pts (pts[k].1)
+      = if outside pts[k].1 (pts.map (·.1)) = true then A.nan
+        else A.polar (A.abs pts[k].2) ((phasesOf A R pts)[k]'(by simp [phasesOf, unwrap_length, hk])) := by
+  have hxs := sorted_fst pts hs
+  have hlen : (phasesOf A R pts).length = (pts.map (·.1)).length := by simp [phasesOf, unwrap_length]
+  have hm : interp pts[k].1 ((pts.map (·.1)).zip (pts.map fun p => A.abs p.2)) = some (A.abs pts[k].2) := by
+    apply interp_node _ _ _ (sortedX_zip _ _ (by simp) hxs)
+    rw [List.mem_iff_getElem]
+    exact ⟨k, by simp [hk], by simp⟩
+  have hp : interp pts[k].1 ((pts.map (·.1)).zip (phasesOf A R pts))
+      = some ((phasesOf A R pts)[k]'(by simp [phasesOf, unwrap_length, hk])) := by
+    apply interp_node _ _ _ (sortedX_zip _ _ hlen hxs)
+    rw [List.mem_iff_getElem]
+    exact ⟨k, by simp [hk, phasesOf, unwrap_length], by simp⟩
+  rw [complexInterp_eq A R .invalid pts _ _ _ hm hp]
+  simp
+
+end bandpass
+
+/-! ### delays -/
+
+/-- **c14_delay_formula** — the correction at frequency `f` is `cis(-(2π)·d·f)` (i.e.
+    `exp(-2πi·d·f)`, `cis` opaque), and a missing (NaN) delay is treated as zero -/
+theorem c14_delay_formula {S F : Type} [Field F] (A : CAlg S F) (R : ROps F) (d : F) (freqs : List F) :
+    delayCorrection A R (some d) freqs = freqs.map (fun f => A.cis (-(2 * R.pi * d * f))) ∧
+    delayCorrection A R none freqs = delayCorrection A R (some 0) freqs := by
+  constructor
+  · unfold delayCorrection
+    apply List.map_congr_left
+    intro f _
+    congr 1
+    simp only [Option.getD_some]
+    ring
+  · rfl
+
 end C14
